@@ -47,6 +47,10 @@ def container(x, kind):
         return np.array(x) if len(x) else np.array([], dtype=int)
     if kind == "keys":
         return {v: None for v in x}.keys()
+    if kind == "iter":
+        return iter(list(x))          # one-shot iterable: may be rejected loudly, must not be half-honoured
+    if kind == "gen":
+        return (v for v in list(x))
     raise ValueError(kind)
 
 
@@ -134,8 +138,11 @@ def run_spec(spec, props=("C05",)):
         r = run_once(sim, fn, (), exp=exp_pol)
         A.execs = 1; A.evals = 1
         A.states.add(hsh(spec)); A.trans.add(hsh(spec))
-        cls = "containers:%s" % ic + ("+R0" if R0 else "") + ("+positional" if spec.get("style") == "positional" else "") + (("+labels:" + spec["labels"]) if spec.get("labels") else "")
+        cls = "containers:%s" % ic + (("+R0" + (":" + rc if rc != "list" else "")) if R0 else "") + ("+positional" if spec.get("style") == "positional" else "") + (("+labels:" + spec["labels"]) if spec.get("labels") else "")
         if r.exc is not None:
+            if isinstance(r.exc, TypeError) and (ic in ("iter", "gen") or rc in ("iter", "gen")):
+                A.outcomes.add("rejected:" + type(r.exc).__name__)      # a one-shot iterable is not a sized collection: a loud rejection is fine
+                return A.result(props)
             A.add(V("C05", name, cls, "exception", "%s(initial_infecteds=%r%s) raised %r" % (name, I0c, ", initial_recovereds=%r" % (R0c,) if R0 else "", r.exc)))
             return A.result(props)
         out = r.out
@@ -326,6 +333,14 @@ def specs(tier):
                         for tmin in (0, 1.5):
                             out.append(dict(kind="containers", fn=name, n=n, edges=es, I0=[], R0=list(R0), icont=ic, rcont="list", style="kw",
                                             tmin=tmin, tmax=tmin + 3 if model == "SIS" else "inf", full=full))
+        # one-shot iterables: either rejected with TypeError or honoured completely (never consumed half-way)
+        for n, es in [gr.NAMED["P3"], gr.NAMED["P4"]]:
+            for (I0, R0, ic, rc) in (([0], [], "iter", "list"), ([0, 2], [], "gen", "list"), ([0], [1], "list", "iter"), ([0], [1], "list", "gen"), ([0], [n - 1], "iter", "gen")):
+                if R0 and not hasR0:
+                    continue
+                for full in (False, True):
+                    out.append(dict(kind="containers", fn=name, n=n, edges=es, I0=list(I0), R0=list(R0), icont=ic, rcont=rc, style="kw",
+                                    tmin=0, tmax=3 if model == "SIS" else "inf", full=full))
         # node label types (strings, tuples as in grid graphs, frozensets, floats, False/True/2): a single node or a collection
         for lab in LABELS:
             for n, es in [gr.NAMED["P3"], (4, [(0, 1), (1, 2)])]:
